@@ -511,11 +511,10 @@ def check_batches(ctx):
         ctx.check(bool(none_e), inst, "anchor", c.path, "`records.last()` is matched (empty batch ends the walk)", None)
 
 
-def check_mask(ctx):
+def check_mask(ctx, inst="C15.mask"):
     """the read-only scan does not replay the allocation journal, it *masks* the journaled extents with a forward cursor;
     that is faithful to a real recovery only if the cursor walks the extents in ascending start order from index 0"""
     from rules import roles
-    inst = "C15.mask"
     b = ctx.fn("FeoxStore::scan_and_rebuild_indexes", inst)
     if b is None:
         return
